@@ -44,6 +44,7 @@ package compress
 //@   modifies $enc
 //@   nopanic
 //@   ensures [count] $enc == old($enc) + 1
+//@   ensures [no-error] err == nil
 //@   ensures [codec] err == nil ==> gzipDec(contents(out)) == contents(data) && len(out) > 0
 //@   ensures [level] err == nil ==> contents(out) == gzipEnc(contents(data), gzipLevel(levelOf(srv, "gzip")))
 
@@ -52,6 +53,7 @@ package compress
 //@   modifies $enc
 //@   nopanic
 //@   ensures [count] $enc == old($enc) + 1
+//@   ensures [no-error] err == nil
 //@   ensures [codec] err == nil ==> brDec(contents(out)) == contents(data) && len(out) > 0
 //@   ensures [level] err == nil ==> contents(out) == brEnc(contents(data), brLevel(levelOf(srv, "br")))
 
@@ -134,6 +136,7 @@ package compress
 //@   nopanic
 //@   modifies $enc
 //@   ensures [count]    $enc == old($enc) + 1
+//@   ensures [no-error] err == nil
 //@   ensures [stream]   err == nil ==> buffer != nil && buffer.open == 0 && buffer.rest == gzipEnc(contents(buf), gzipLevel(level))
 //@   ensures [complete] err == nil ==> fresh(buffer)
 
@@ -141,12 +144,14 @@ package compress
 //@   nopanic
 //@   modifies $enc
 //@   ensures [count] $enc == old($enc) + 1
+//@   ensures [no-error] err == nil
 //@   ensures [codec] err == nil ==> contents(out) == gzipEnc(contents(buf), gzipLevel(level))
 
 //@ func brotliEncode(buf []byte, level int) (buffer *bytes.Buffer, err error)
 //@   nopanic
 //@   modifies $enc
 //@   ensures [count]    $enc == old($enc) + 1
+//@   ensures [no-error] err == nil
 //@   ensures [stream]   err == nil ==> buffer != nil && buffer.open == 0 && buffer.rest == brEnc(contents(buf), brLevel(level))
 //@   ensures [complete] err == nil ==> fresh(buffer)
 
@@ -154,6 +159,7 @@ package compress
 //@   nopanic
 //@   modifies $enc
 //@   ensures [count] $enc == old($enc) + 1
+//@   ensures [no-error] err == nil
 //@   ensures [codec] err == nil ==> contents(out) == brEnc(contents(buf), brLevel(level))
 
 //@ func doGunzip(buf []byte) (out []byte, err error)
